@@ -55,6 +55,16 @@ func vFSPut(rel, content string) {
 
 func vFSMkdir(rel string) { os.MkdirAll(vFSPath(rel), 0755) }
 
+// vFSSymlink: a symbolic link at rel pointing at targetRel (which need not exist)
+func vFSSymlink(rel, targetRel string) {
+	p := vFSPath(rel)
+	os.MkdirAll(filepath.Dir(p), 0755)
+	os.Remove(p)
+	if err := os.Symlink(vFSPath(targetRel), p); err != nil {
+		panic(err)
+	}
+}
+
 func vFSGet(rel string) (string, bool) {
 	b, err := os.ReadFile(vFSPath(rel))
 	return string(b), err == nil
